@@ -17,12 +17,15 @@ func init() {
 	register(&Stream{Name: "segmentiat", Run: func(r *gen.Rand, n int, emit func(op, impl, class string)) {
 		for i := 0; i < n; i++ {
 			cr := r.Fork(uint64(i))
-			o := gen.Opts{MinBatches: 1, MaxBatches: 1 + i%4, MaxEntries: 1 + i%3, SECs: []string{"IAT"}}
+			o := gen.Opts{IATCorrections: true, MinBatches: 1, MaxBatches: 1 + i%4, MaxEntries: 1 + i%3, SECs: []string{"IAT"}}
 			if i%3 == 1 {
 				o.SECs = []string{"IAT", "PPD", "CCD", "WEB"}
 			}
 			if cr.Chance(1, 2) {
 				o.ServiceClasses = []int{ach.MixedDebitsAndCredits}
+			}
+			if i%5 == 4 {
+				o.Categories = []string{ach.CategoryForward, ach.CategoryReturn, ach.CategoryNOC}
 			}
 			f, err := gen.File(cr, o)
 			if err != nil || len(f.IATBatches) == 0 {
